@@ -180,7 +180,33 @@ def op_copy(w, ins):
             else:
                 ok, v = call(w, D.autoref.copy_bdd, a.ref, gd.api)
         elif how == 2 and gs.flavor == 'autoref':
-            ok, v = call(w, D.copy.copy_bdd, a.ref, gd.api)
+            if ins.get('shared'):
+                # the memo is the caller's and is shared between calls, with
+                # whatever happens to both managers in between
+                cache = w.copy_caches.setdefault((src, dst), {})
+                meaning = w.copy_cache_tt.setdefault((src, dst), {})
+                # the memo is keyed by nodes of the source, which it does not
+                # reference: it is the user's to discard once any of them is
+                # gone or recycled (the target side is protected by the
+                # handles the memo holds)
+                if not cache:
+                    meaning.clear()
+                if any(w.den(src, k) != meaning.get(k) for k in cache):
+                    cache.clear()
+                    meaning.clear()
+                    w.stats['copy_shared_cache_discarded'] += 1
+                elif cache:
+                    w.stats['copy_shared_cache_reused'] += 1
+                ok, v = call(w, D.copy.copy_bdd, a.ref, gd.api, cache)
+                w.touch()
+                for k in cache:
+                    if k not in meaning:
+                        meaning[k] = w.den(src, k)
+                w.stats['copy_shared_cache'] += 1
+                if ok and type(v) is D.autoref.Function:
+                    v = ~ ~v        # a handle of the user's own, not the memo's object
+            else:
+                ok, v = call(w, D.copy.copy_bdd, a.ref, gd.api)
         else:
             return 'skip'
         take_result(w, dst, ok, v, a.tt, 'C11', ins.get('keep', True), f'copy[{how}] M{src}->M{dst}')
@@ -230,6 +256,8 @@ def op_fork(w, ins):
         # the copy holds the same nodes with other counts: the next collection
         # in it frees nodes that stored edges and handles still point to
         w.fail('I-count', 'copy.copy(manager): the copy has the same nodes but different reference counts', ['C11', 'C02', 'C06'])
+    for key in [k for k in w.copy_caches if 1 in k]:
+        del w.copy_caches[key]
     w.mgrs[1] = tmp
     for s_ in list(w.slots_of(0)):
         w.add_slot(1, s_.ref, s_.tt)
@@ -687,7 +715,11 @@ def gen_pick(w, r, cfg):
 
 
 def gen_copy(w, r, cfg):
-    return dict(op='copy', m=r.randrange(2), a=_ri(r), how=r.randrange(4),
+    how, shared = r.randrange(4), int(r.random() < 0.5)
+    if cfg.get('copy_memo_run') and r.random() < 0.8:
+        # a run whose copies share one memo per direction (autoref only)
+        how, shared = 2, 1
+    return dict(op='copy', m=r.randrange(2), a=_ri(r), how=how, shared=shared,
                 more=[_ri(r) for _ in range(r.randint(0, 3))], keep=r.random() < cfg['keep_rate'])
 
 
